@@ -296,8 +296,8 @@ theorem history_no_response_to_notify (c : Cfg) (ops : List Op) (cn : Nat) :
 
 abbrev c0 : Cfg := tieCfg
 
-def s1 : Sess := ⟨7, some "chat-1"⟩
-def s0 : Sess := ⟨8, none⟩
+def s1 : Sess := ⟨7, some "chat-1", true⟩
+def s0 : Sess := ⟨8, none, true⟩
 
 example : serve c0 s1 ⟨5, "chat.zoo.echo", .valid 3⟩ =
     [.invoke "chat-1" "zoo" "echo" 3, .respond 0 7 5 (.data "chat-1" "zoo" "echo" 3)] := by decide
@@ -308,8 +308,8 @@ example : serve c0 s1 ⟨5, "chat.zoo.late", .valid 3⟩ =
     [.invoke "chat-1" "zoo" "late" 3, .respond 31000 7 5 .error] := by decide
 example : served c0 s0 ⟨5, "chat.zoo.echo", .valid 3⟩ = none := by decide
 example : serve c0 s0 ⟨5, "chat.zoo.echo", .valid 3⟩ = [.respond 0 8 5 .error] := by decide
-example : serve c0 ⟨9, some "chat-9"⟩ ⟨5, "chat.zoo.echo", .valid 3⟩ = [.respond 31000 9 5 .error] := by decide
-example : serve c0 ⟨9, some "gate-1"⟩ ⟨5, "chat.zoo.echo", .valid 3⟩ = [.respond 31000 9 5 .error] := by decide
+example : serve c0 ⟨9, some "chat-9", true⟩ ⟨5, "chat.zoo.echo", .valid 3⟩ = [.respond 31000 9 5 .error] := by decide
+example : serve c0 ⟨9, some "gate-1", true⟩ ⟨5, "chat.zoo.echo", .valid 3⟩ = [.respond 31000 9 5 .error] := by decide
 example : serve c0 s1 ⟨5, "chat.zoo.tell", .valid 3⟩ = [.respond 0 7 5 .error] := by decide
 example : serve c0 s1 ⟨5, "gate.zoo.tell", .valid 3⟩ = [.respond 0 7 5 .error] := by decide
 example : serve c0 s1 ⟨5, "gate.zoo", .valid 3⟩ = [.respond 0 7 5 .error] := by decide
@@ -329,7 +329,7 @@ example : (run fixed c0 St.init [.req s1 ⟨5, "chat.zoo.slow", .valid 1⟩, .re
 example := request_served_by_target c0 s1 ⟨5, "chat.zoo.echo", .valid 3⟩ (by decide) (by decide) "chat-1" "zoo" "echo" 3 .ok (by decide)
 example := response_origin_is_target c0 s1 ⟨5, "chat.zoo.echo", .valid 3⟩ (by decide) (by decide) 0 7 5 "chat-1" "zoo" "echo" 3 (by decide)
 example := unserviceable_gets_error c0 s0 ⟨5, "chat.zoo.echo", .valid 3⟩ (by decide) (by decide) (by decide)
-example := no_target_gets_error c0 ⟨9, some "chat-7"⟩ ⟨5, "chat.zoo.echo", .valid 3⟩ (by decide) (by decide) (by decide)
+example := no_target_gets_error c0 ⟨9, some "chat-7", false⟩ ⟨5, "chat.zoo.echo", .valid 3⟩ (by decide) (by decide) (by decide)
 example := unknown_method_gets_error c0 s1 ⟨5, "chat.zoo.nosuch", .valid 3⟩ (by decide) (by decide) (by decide)
 example := request_to_notify_method_gets_error c0 s1 ⟨5, "gate.zoo.tell", .valid 3⟩ (by decide) (by decide) .ok (by decide)
 example := malformed_route_gets_error c0 s1 ⟨5, "gate.zoo.echo.x", .valid 3⟩ (by decide) (by decide) (by decide) (by decide)
@@ -359,13 +359,28 @@ example := (request_answered_with_truncated_id c0 s1 ⟨18446744073709551615, "h
 /-! ## what the two repairs changed (pre-fix behaviour kept as `serveWith ⟨false, _⟩` / `⟨_, false⟩`) -/
 
 /-- D4a before d38d6e3: a request without routable target was never answered. -/
-theorem d4a_witness : responses (serveWith ⟨false, true⟩ c0 s0 ⟨5, "chat.zoo.echo", .valid 3⟩) = [] := by decide
+theorem d4a_witness : responses (serveWith ⟨false, true, true⟩ c0 s0 ⟨5, "chat.zoo.echo", .valid 3⟩) = [] := by decide
 
 /-- D4b before b007ad3: a front-local request to a notify-shaped method was never answered … -/
-theorem d4b_witness_local : responses (serveWith ⟨true, false⟩ c0 s1 ⟨5, "gate.zoo.tell", .valid 3⟩) = [] := by decide
+theorem d4b_witness_local : responses (serveWith ⟨true, false, true⟩ c0 s1 ⟨5, "gate.zoo.tell", .valid 3⟩) = [] := by decide
 
 /-- … and a forwarded one only by the 30 s request timeout. -/
 theorem d4b_witness_forwarded :
-    serveWith ⟨true, false⟩ c0 s1 ⟨5, "chat.zoo.tell", .valid 3⟩ = [.respond timeoutMs 7 5 .error] := by decide
+    serveWith ⟨true, false, true⟩ c0 s1 ⟨5, "chat.zoo.tell", .valid 3⟩ = [.respond timeoutMs 7 5 .error] := by decide
+
+/-- D20 before d1d6afb: a forwarded request read before the owner had run `AddSession` carried
+`SessionId` 0; the handler ran at the back end but its reply was dropped by the front ("missmatch
+res") and the client was never answered — not even by the timeout (the pending entry is removed
+when the reply arrives).  Front-local requests and notifications were not affected. -/
+theorem d20_witness :
+    serveWith ⟨true, true, false⟩ c0 ⟨7, none, false⟩ ⟨5, "hall.zoo.echo", .valid 3⟩ = [.invoke "hall-1" "zoo" "echo" 3] ∧
+    serveWith ⟨true, true, false⟩ c0 ⟨7, none, false⟩ ⟨5, "gate.zoo.echo", .valid 3⟩ =
+      [.invoke "gate-1" "zoo" "echo" 3, .respond 0 7 5 (.data "gate-1" "zoo" "echo" 3)] ∧
+    serveWith ⟨true, true, false⟩ c0 ⟨7, none, true⟩ ⟨5, "hall.zoo.echo", .valid 3⟩ =
+      [.invoke "hall-1" "zoo" "echo" 3, .respond 0 7 5 (.data "hall-1" "zoo" "echo" 3)] := by decide
+
+/-- with the repair the same pipelined request is served like any other (instance of `request_served_by_target`) -/
+example : serve c0 ⟨7, none, false⟩ ⟨5, "hall.zoo.echo", .valid 3⟩ =
+    [.invoke "hall-1" "zoo" "echo" 3, .respond 0 7 5 (.data "hall-1" "zoo" "echo" 3)] := by decide
 
 end Cell2v.Props.C02
